@@ -24,6 +24,12 @@ def mk(src, cls, tag=None, **fields):
     for (name, d, v, c, has) in spec:
         if name in fields: vals[name] = fields[name]
         elif has and (d is None or isinstance(d, _ast.Constant)): vals[name] = d.value if d is not None else None
+        elif has and isinstance(d, _ast.Call) and isinstance(d.func, _ast.Name) and d.func.id in ('dict', 'list') and not d.args and not d.keywords:
+            # attr.ib(factory=dict/list): per-instance mutable state, empty on a new object; it belongs to the (external) object, so a write to it is a write to state that outlives the call
+            from .symex import PDict as _PD, PList as _PL
+            v_ = _PD() if d.func.id == 'dict' else _PL([])
+            v_.owner = EXT; v_.tag = "%s.%s" % (cls, name)
+            vals[name] = v_
         else: raise Unsupported("field layout of %s changed: source has %s, builder has %s" % (cls, names, list(fields)))
     return Obj(cls, vals, owner=EXT, tag=tag or cls)
 
